@@ -34,7 +34,7 @@ sys.path.insert(0, os.path.dirname(os.path.abspath(__file__)))
 import rustscan  # noqa: E402
 
 VERIF = os.path.dirname(os.path.dirname(os.path.abspath(__file__)))
-EXCLUDE_DIRS = {'target', '.git', 'site', 'bench_content', 'benches', 'tests', 'scripts', '.github'}
+EXCLUDE_DIRS = {'target', '.git', 'site', 'bench_content', 'benches', 'tests', 'scripts', '.github', '_seed'}
 
 
 class WeaveError(Exception):
